@@ -117,9 +117,11 @@ UNITS += [
              QUEUE_REF,
              Sub(r"\bqueue\.empty\(\)", "ciq_empty(queue)", 1),
              Sub(r"\btask_f\.finish\(\);", "task_finish(&task_f);", None),   # any number: "exactly one finish or one spawn" is the contract
-             Sub(r"auto hint = pika::execution::experimental::get_hint\(op_state->scheduler\);", "struct hint hint = get_hint(self->op_state);", 1),
-             Sub(r"hint == pika::execution::thread_schedule_hint\(\)", "hint_eq(hint, hint_default())", 1),
-             Call(r"hint = pika::execution::thread_schedule_hint", "hint = hint_make({0}, {1})", 1),
+             Sub(r"auto hint = pika::execution::experimental::get_hint\(op_state->scheduler\);", "struct hint hint = get_hint(self->op_state);", None),
+             Sub(r"hint == pika::execution::thread_schedule_hint\(\)", "hint_eq(hint, hint_default())", None),
+             Call(r"(?<![\w.>])hint = pika::execution::thread_schedule_hint", "hint = hint_make({0}, {1})", None),
+             # a hint built in place (no look at the scheduler's own hint): `auto [const] hint = thread_schedule_hint(mode, n);`
+             Call(r"auto(?: const)? hint = pika::execution::thread_schedule_hint", "struct hint hint = hint_make({0}, {1})", None),
              Sub(r"pika::execution::thread_schedule_hint_mode::(\w+)", lambda m: "HINT_" + m.group(1).upper(), 1),
              Sub(r"pika::threads::detail::get_self_id\(\)", "get_self_id()", 2),
              Sub(r"pika::detail::thread_description desc =[^;]*;", "", 1),
